@@ -275,6 +275,7 @@ class World:
         self.tape = tape
         self.files = {}             # abs path -> bytes
         self.modes = {}             # abs path -> permission bits set by chmod (default 0644 / 0755)
+        self.links = {}             # abs path -> symlink target (absolute, or relative to the link's directory)
         self.dirs = {SIMROOT}
         self.log = []               # (step, task, inc, op, path, result, n)
         self.step = 0
@@ -345,14 +346,40 @@ class World:
             d = os.path.dirname(d)
         self.files[path] = data
 
+    def symlink(self, path, target):
+        """(harness API) make `path` a symbolic link to `target`"""
+        self.mkdirs(os.path.dirname(path))
+        self.links[path] = target
+
+    def resolve_links(self, p, follow_last=True):
+        """kernel path resolution: every symlinked component is followed, the last one only if follow_last"""
+        for _ in range(40):
+            parts = [x for x in p[len(SIMROOT):].split("/") if x]
+            cur = SIMROOT
+            for i, part in enumerate(parts):
+                nxt = cur + "/" + part
+                if nxt in self.links and (follow_last or i < len(parts) - 1):
+                    tgt = self.links[nxt]
+                    if not os.path.isabs(tgt):
+                        tgt = os.path.join(cur, tgt)
+                    p = os.path.normpath(os.path.join(tgt, *parts[i + 1:]))
+                    break
+                cur = nxt
+            else:
+                return p
+            if not (p == SIMROOT or p.startswith(SIMROOT + "/")):
+                raise Unsupported("a simulated symlink leads out of the simulated root: %s" % p)
+        raise OSError(errno.ELOOP, os.strerror(errno.ELOOP), p)
+
     def mkdirs(self, path):
         while path and path not in self.dirs and path.startswith(SIMROOT):
             self.dirs.add(path)
             path = os.path.dirname(path)
 
     # -- path routing ------------------------------------------------------
-    def route(self, p):
-        """-> (is_sim, absolute normalised path)"""
+    def route(self, p, follow=True):
+        """-> (is_sim, absolute normalised path); symlinks resolved as the kernel would (the last component
+        only if `follow`)"""
         if isinstance(p, int):
             return False, p
         p = os.fspath(p)
@@ -365,6 +392,8 @@ class World:
             p = os.path.join(inc.task.cwd, p)
         p = os.path.normpath(p)
         if p == SIMROOT or p.startswith(SIMROOT + "/"):
+            if self.links:
+                p = self.resolve_links(p, follow)
             return True, p
         return False, p
 
@@ -594,6 +623,14 @@ class World:
         self.log_event(inc, "stat", path, "ENOENT")
         raise self._enoent(path)
 
+    def sim_lstat(self, path):
+        if path in self.links:
+            inc = self.current
+            self.gate(inc, "stat", path)
+            self.log_event(inc, "stat", path, "link")
+            return os.stat_result((statmod.S_IFLNK | 0o777, 0, 0, 1, 0, 0, len(self.links[path]), 0, 0, 0))
+        return self.sim_stat(path)
+
     def sim_mkdir(self, path):
         inc = self.current
         self.gate(inc, "mkdir", path)
@@ -610,6 +647,11 @@ class World:
     def sim_unlink(self, path):
         inc = self.current
         self.gate(inc, "unlink", path)
+        if path in self.links:
+            del self.links[path]
+            self.log_event(inc, "unlink", path, "ok")
+            self.note_mutation(inc, path)
+            return
         if path in self.dirs:
             self.log_event(inc, "unlink", path, "EISDIR")
             raise IsADirectoryError(errno.EISDIR, os.strerror(errno.EISDIR), path)
@@ -675,6 +717,13 @@ class World:
     def sim_rename(self, src, dst):
         inc = self.current
         self.gate(inc, "rename", src, dst=dst)
+        if src in self.links:
+            self.links[dst] = self.links.pop(src)
+            self.files.pop(dst, None)
+            self.log_event(inc, "rename", src, "ok:" + dst)
+            self.note_mutation(inc, src)
+            self.note_mutation(inc, dst)
+            return
         if src in self.files:
             if dst in self.dirs:
                 self.log_event(inc, "rename", src, "EISDIR")
@@ -683,6 +732,7 @@ class World:
                 self.log_event(inc, "rename", src, "ENOENT")
                 raise self._enoent(dst)
             self.files[dst] = self.files.pop(src)
+            self.links.pop(dst, None)       # renaming over a symlink replaces the link itself
             if src in self.modes:
                 self.modes[dst] = self.modes.pop(src)
             else:
@@ -704,7 +754,7 @@ class World:
             raise self._enoent(path)
         pre = path.rstrip("/") + "/"
         names = set()
-        for p in list(self.files) + list(self.dirs):
+        for p in list(self.files) + list(self.dirs) + list(self.links):
             if p.startswith(pre):
                 names.add(p[len(pre):].split("/", 1)[0])
         self.log_event(inc, "listdir", path, "ok", len(names))
@@ -916,11 +966,15 @@ def _patched_open(file, mode="r", buffering=-1, encoding=None, errors=None, newl
 
 
 def _mk1(name, simname):
+    nofollow = name in ("lstat", "unlink", "remove", "rmdir")
+
     def f(path, *a, **k):
         w = WORLD
         if w is not None and k.get("dir_fd") is None and not isinstance(path, int):
             # (fd-relative calls can only concern the real file system: nothing simulated has a descriptor)
-            is_sim, p = w.route(path)
+            is_sim, p = w.route(path, follow=not (nofollow or k.get("follow_symlinks") is False))
+            if is_sim and name == "stat" and k.get("follow_symlinks") is False:
+                return w.sim_lstat(p)
             if is_sim:
                 return getattr(w, simname)(p)
             if w.current is not None and name in ("mkdir", "unlink", "remove", "rmdir"):
@@ -933,8 +987,8 @@ def _mk1(name, simname):
 def _patched_rename(src, dst, *a, **k):
     w = WORLD
     if w is not None:
-        s1, p1 = w.route(src)
-        s2, p2 = w.route(dst)
+        s1, p1 = w.route(src, follow=False)
+        s2, p2 = w.route(dst, follow=False)
         if s1 and s2:
             return w.sim_rename(p1, p2)
         if s1 or s2:
@@ -1095,14 +1149,22 @@ class _SimDirEntry:
     def __init__(self, w, name, path):
         self._w, self.name, self.path = w, name, path
 
+    def _real(self, follow):
+        if follow and self.path in self._w.links:
+            try:
+                return self._w.resolve_links(self.path)
+            except OSError:
+                return None
+        return self.path
+
     def is_dir(self, follow_symlinks=True):
-        return self.path in self._w.dirs
+        return self._real(follow_symlinks) in self._w.dirs
 
     def is_file(self, follow_symlinks=True):
-        return self.path in self._w.files
+        return self._real(follow_symlinks) in self._w.files
 
     def is_symlink(self):
-        return False
+        return self.path in self._w.links
 
     def is_junction(self):
         return False
@@ -1155,7 +1217,7 @@ def _mk_meta(name, handler):
     def f(path, *a, **k):
         w = WORLD
         if w is not None and k.get("dir_fd") is None and not isinstance(path, int):
-            is_sim, p = w.route(path)
+            is_sim, p = w.route(path, follow=name not in ("readlink", "lchmod", "lchown"))
             if is_sim:
                 return handler(w, p, *a, **k)
         return _real[name](path, *a, **k)
@@ -1170,6 +1232,8 @@ def _refuse(name):
 
 
 def _sim_readlink(w, p, *a, **k):
+    if p in w.links:
+        return w.links[p]
     w.sim_stat(p)
     raise OSError(errno.EINVAL, os.strerror(errno.EINVAL), p)
 
@@ -1206,7 +1270,7 @@ def install_seams():
     builtins.open = _patched_open
     io.open = _patched_open
     os.stat = _mk1("stat", "sim_stat")
-    os.lstat = _mk1("lstat", "sim_stat")
+    os.lstat = _mk1("lstat", "sim_lstat")
     os.mkdir = _mk1("mkdir", "sim_mkdir")
     os.unlink = _mk1("unlink", "sim_unlink")
     os.remove = _mk1("remove", "sim_unlink")
